@@ -338,6 +338,7 @@ type grpcClientConn struct {
 	responseHeader   http.Header
 	responseTrailer  http.Header
 	readTrailers     func(*grpcUnmarshaler, *duplexHTTPCall) (http.Header, error)
+	receiveErr       error // the first error Receive returned, the end of the response included
 }
 
 func (cc *grpcClientConn) Spec() Spec {
@@ -361,6 +362,17 @@ func (cc *grpcClientConn) CloseRequest() error {
 
 func (cc *grpcClientConn) Receive(msg any) error {
 	cc.duplexCall.BlockUntilResponseReady()
+	if cc.receiveErr != nil {
+		// The stream has ended, one way or the other: there's nothing more to
+		// read, and the trailers have been merged once already.
+		return cc.receiveErr
+	}
+	err := cc.receive(msg)
+	cc.receiveErr = err
+	return err
+}
+
+func (cc *grpcClientConn) receive(msg any) error {
 	err := cc.unmarshaler.Unmarshal(msg)
 	if err == nil {
 		return nil
